@@ -383,7 +383,6 @@ fn copy_value_rec(
 }
 
 struct ClassDefSizeEstimator {
-    consecutive_gids: bool,
     num_ranges_per_class: HashMap<u16, u16>,
     glyphs_per_class: HashMap<u16, BTreeSet<GlyphId16>>,
 }
@@ -392,16 +391,8 @@ const GLYPH_SIZE: usize = std::mem::size_of::<u16>();
 
 impl ClassDefSizeEstimator {
     fn new(coverage: rlayout::CoverageTable, classdef: rlayout::ClassDef) -> Self {
-        let mut consecutive_gids = true;
-        let mut last_gid = None;
         let mut glyphs_per_class = HashMap::new();
         for (gid, class) in coverage.iter().map(|gid| (gid, classdef.get(gid))) {
-            if let Some(last) = last_gid.take() {
-                if last + 1 != gid.to_u16() {
-                    consecutive_gids = false;
-                }
-            }
-            last_gid = Some(gid.to_u16());
             glyphs_per_class
                 .entry(class)
                 .or_insert(BTreeSet::default())
@@ -415,7 +406,6 @@ impl ClassDefSizeEstimator {
             num_ranges_per_class.insert(*class, num_ranges);
         }
         ClassDefSizeEstimator {
-            consecutive_gids,
             num_ranges_per_class,
             glyphs_per_class,
         }
@@ -435,17 +425,15 @@ impl ClassDefSizeEstimator {
     fn increment_class_def_size(&self, class: u16) -> usize {
         // classdef2 uses 6 bytes for each range (start, end, class)
         const SIZE_PER_RANGE: usize = 6;
-        let class_def_2_size = SIZE_PER_RANGE
+        // NOTE: a format 1 classdef is only smaller than this if the glyphs of
+        // all the classes that end up in one subtable are (nearly) contiguous,
+        // which we cannot know per class; format 2 is a safe upper bound.
+        SIZE_PER_RANGE
             * self
                 .num_ranges_per_class
                 .get(&class)
                 .copied()
-                .unwrap_or_default() as usize;
-        if self.consecutive_gids {
-            class_def_2_size.min(self.n_glyphs_in_class(class) * GLYPH_SIZE)
-        } else {
-            class_def_2_size
-        }
+                .unwrap_or_default() as usize
     }
 }
 
